@@ -35,15 +35,21 @@ Proof.
     try (right; lia); try (apply I2; reflexivity); try (apply I3; reflexivity); try (apply I5; reflexivity).
 Qed.
 
+Ltac drop_guard H :=
+  match type of H with (if ?c then None else _) = Some _ => destruct c eqn:?; [discriminate H|] end.
+
 Lemma kstep_inv s e s' : KInv s -> kstep s e = Some s' -> KInv s'.
 Proof.
   intros I H. destruct e; cbn in H.
-  - destruct delta_up; [eapply upd_inputs_inv; eauto|].
+  - drop_guard H.
+    destruct delta_up; [eapply upd_inputs_inv; eauto|].
     destruct (k <=? kpend s); [eapply upd_inputs_inv; eauto | discriminate].
+  - eapply upd_inputs_inv; eauto.
   - destruct up; [eapply upd_inputs_inv; eauto|].
-    destruct (kcur s); [discriminate | eapply upd_inputs_inv; eauto].
-  - eapply upd_inputs_inv; eauto.
-  - eapply upd_inputs_inv; eauto.
+    destruct (kcur s); [discriminate|]. destruct a; [eapply upd_inputs_inv; eauto|].
+    destruct n; [eapply upd_inputs_inv; eauto | discriminate H].
+  - drop_guard H. eapply upd_inputs_inv; eauto.
+  - drop_guard H. eapply upd_inputs_inv; eauto.
   - destruct I as [I1 I2 I3 I4 I5]. destruct (kowed s) eqn:Eo; [discriminate|]. inversion H; subst; clear H.
     constructor; cbn; intros; auto.
     + rewrite (I3 H). left. apply orb_true_r.
@@ -102,18 +108,22 @@ Theorem signal_persists s e s' :
   ksig s = true -> kstep s e = Some s' -> ksig s' = true \/ e = KRecv \/ e = KClose \/ e = KOpen.
 Proof.
   intros S H. destruct e; cbn in H; auto.
-  - destruct delta_up; [|destruct (k <=? kpend s); [|discriminate]];
-      unfold upd_inputs in H;
-      repeat match type of H with (if ?c then _ else _) = Some _ => destruct c; try discriminate H end;
-      inversion H; subst; cbn; auto.
-  - destruct up; [|destruct (kcur s); [discriminate|]];
+  - drop_guard H.
+    destruct delta_up; [|destruct (k <=? kpend s); [|discriminate]];
       unfold upd_inputs in H;
       repeat match type of H with (if ?c then _ else _) = Some _ => destruct c; try discriminate H end;
       inversion H; subst; cbn; auto.
   - unfold upd_inputs in H;
       repeat match type of H with (if ?c then _ else _) = Some _ => destruct c; try discriminate H end;
       inversion H; subst; cbn; auto.
-  - unfold upd_inputs in H;
+  - destruct up; [|destruct (kcur s); [discriminate|]; destruct a; [|destruct n; [|discriminate]]];
+      unfold upd_inputs in H;
+      repeat match type of H with (if ?c then _ else _) = Some _ => destruct c; try discriminate H end;
+      inversion H; subst; cbn; auto.
+  - drop_guard H. unfold upd_inputs in H;
+      repeat match type of H with (if ?c then _ else _) = Some _ => destruct c; try discriminate H end;
+      inversion H; subst; cbn; auto.
+  - drop_guard H. unfold upd_inputs in H;
       repeat match type of H with (if ?c then _ else _) = Some _ => destruct c; try discriminate H end;
       inversion H; subst; cbn; auto.
   - destruct (kowed s); [discriminate|]. inversion H; subst; cbn. rewrite S. auto.
